@@ -312,6 +312,9 @@ func TestC20_Race(t *testing.T) {
 		var blockIdx int64
 		var reentrant int64
 		var inCallback int64 // re-entrant subscriber calls currently inside the library
+		var callSeq int64
+		var callMu sync.Mutex
+		activeCalls := map[int64]time.Time{} // the same calls, by id, with their start times
 		var unsubs []datatransfer.Unsubscribe
 		var subMu sync.Mutex
 		ctx := context.Background()
@@ -326,6 +329,15 @@ func TestC20_Race(t *testing.T) {
 				atomic.AddInt64(&reentrant, 1)
 				atomic.AddInt64(&inCallback, 1)
 				defer atomic.AddInt64(&inCallback, -1)
+				callID := atomic.AddInt64(&callSeq, 1)
+				callMu.Lock()
+				activeCalls[callID] = time.Now()
+				callMu.Unlock()
+				defer func() {
+					callMu.Lock()
+					delete(activeCalls, callID)
+					callMu.Unlock()
+				}()
 				id := st.ChannelID()
 				switch arg % 7 {
 				case 0:
@@ -499,12 +511,31 @@ func TestC20_Race(t *testing.T) {
 			mfail(t, log, "C20/callback-hang", "transport callbacks did not return after Stop:\n%s", dump)
 		}
 		// every call a subscriber made from inside its callback must have returned
-		deadline := time.Now().Add(watchdog)
-		for atomic.LoadInt64(&inCallback) > 0 && time.Now().Before(deadline) {
-			time.Sleep(time.Millisecond)
+		// (a call is judged by its own age: a late event - e.g. of a monitor timer that fired just
+		// before Stop - may enter a callback at any instant, and being inside one is not being stuck)
+		callMu.Lock()
+		pending := map[int64]time.Time{}
+		for id, since := range activeCalls {
+			pending[id] = since
 		}
-		if n := atomic.LoadInt64(&inCallback); n > 0 {
-			mfail(t, log, "C20/stop/query-racing-stop-hangs", "%d call(s) made by a subscriber from inside its callback did not return within %s after Stop:\n%s", n, watchdog, allStacks())
+		callMu.Unlock()
+		nStuck := 0
+		for len(pending) > 0 && nStuck == 0 {
+			callMu.Lock()
+			for id, since := range pending {
+				if _, still := activeCalls[id]; !still {
+					delete(pending, id)
+				} else if time.Since(since) > watchdog {
+					nStuck++
+				}
+			}
+			callMu.Unlock()
+			if len(pending) > 0 && nStuck == 0 {
+				time.Sleep(5 * time.Millisecond)
+			}
+		}
+		if nStuck > 0 {
+			mfail(t, log, "C20/stop/query-racing-stop-hangs", "%d call(s) made by a subscriber from inside its callback have not returned %s after they began (Stop has returned):\n%s", nStuck, watchdog, allStacks())
 		}
 		// the event subscription API is still usable (nobody is stuck holding its lock)
 		if !within(func() {
